@@ -376,3 +376,58 @@ def keyed_memo_problems(tree):
             if missing:
                 out.append((cls, fn, x, mt, missing))
     return out
+
+
+# ------------------------------------------------------------------------------------------------ cached functions
+CACHE_DECOS = ('lru_cache', 'functools.lru_cache', 'cache', 'functools.cache')
+_MUTATORS = ('append', 'extend', 'insert', 'remove', 'pop', 'clear', 'sort', 'reverse', 'update', 'setdefault', 'popitem', 'add', 'discard')
+
+
+def cached_mutable_results(tree):
+    """A function under lru_cache / cache hands the SAME object to every caller that passes equal arguments.  -> [(cached fn, caller fn,
+    mutating node, text)] for results that are lists / dicts / sets and are changed in place by a caller."""
+    cached = {}
+    for (cls, fn) in _functions(tree):
+        decos = [_txt(d.func) if isinstance(d, ast.Call) else _txt(d) for d in fn.decorator_list]
+        if any(d in CACHE_DECOS for d in decos):
+            kinds = set()
+            for x in _shallow(fn):
+                if isinstance(x, ast.Return) and x.value is not None:
+                    v = x.value
+                    if isinstance(v, (ast.List, ast.ListComp, ast.Dict, ast.DictComp, ast.Set, ast.SetComp)):
+                        kinds.add('mutable')
+                    elif isinstance(v, ast.Call) and (_txt(v.func) in ('list', 'dict', 'set', 'sorted') or (isinstance(v.func, ast.Attribute) and v.func.attr in (
+                            'split', 'rsplit', 'splitlines', 'copy', 'keys', 'values', 'items'))):
+                        kinds.add('mutable')
+                    elif isinstance(v, ast.Call) and _txt(v.func) in ('tuple', 'frozenset', 'str', 'int', 'float') or isinstance(v, (ast.Tuple, ast.Constant)):
+                        kinds.add('immutable')
+                    else:
+                        kinds.add('unknown')
+            if 'mutable' in kinds:
+                cached[fn.name] = fn
+    out = []
+    if not cached:
+        return out
+    for (cls, fn) in _functions(tree):
+        held = {}
+        for x in _shallow(fn):
+            if isinstance(x, (ast.Assign, ast.AnnAssign)) and isinstance(getattr(x, 'value', None), ast.Call):
+                f = x.value.func
+                name = f.id if isinstance(f, ast.Name) else (f.attr if isinstance(f, ast.Attribute) else None)
+                if name in cached:
+                    for t in (x.targets if isinstance(x, ast.Assign) else [x.target]):
+                        if isinstance(t, ast.Name):
+                            held[t.id] = name
+        for x in _shallow(fn):
+            tgt = None
+            if isinstance(x, ast.Call) and isinstance(x.func, ast.Attribute) and x.func.attr in _MUTATORS:
+                b = x.func.value
+                if isinstance(b, ast.Name) and b.id in held:
+                    tgt = held[b.id]
+                elif isinstance(b, ast.Call) and ((isinstance(b.func, ast.Name) and b.func.id in cached) or (isinstance(b.func, ast.Attribute) and b.func.attr in cached)):
+                    tgt = b.func.id if isinstance(b.func, ast.Name) else b.func.attr
+            elif isinstance(x, ast.Subscript) and isinstance(x.ctx, (ast.Store, ast.Del)) and isinstance(x.value, ast.Name) and x.value.id in held:
+                tgt = held[x.value.id]
+            if tgt is not None:
+                out.append((cached[tgt], fn, x, _txt(x)))
+    return out
